@@ -107,6 +107,20 @@ CLAIMS['C20'] = ('proof', 'Lean 4 theorems on a transcription of both process-gr
     'procgrid_terminates, procgrid_valid, nondivisor_never_accepted, nondivisor_strictly_worse, procgrid_error_iff, procgrid_returns_iff, blocks_nonempty_of_bounds, compatible_flux_vpar, compatible_vpar_pol, '
     'standard_layouts_buildable. Exhaustive box max1,max2<=30,size<=64 (thorough 60/60/128) + random to 1e6 vs the real functions (exact) and a brute-force divisor oracle; real setupCylindricalGrid builds on <= 8 ranks.',
     NOTE_COMMON + ' Float vs exact ratio comparisons can differ only on exact ties (proved: nondivisor_strictly_worse).', 'DESIGN.md 4/C20')
+
+CLAIMS['C14'] = ('other', 'partial proof in Lean 4 (slices, quadrature weak form of every matrix entry, linearity, buffer history-freedom, refusal logic) + exact-rational residual correspondence under the sparse-solver contract + manufactured-solution oracle',
+    '16 theorems: slices_consistent, assembled_is_quadrature_weak_form, quadSum_is_gauss_sum, mass_symmetric, solve_linear_in_rho, coeffs_buffer_history_free, modes_independent, dirichlet_zero_at_boundary, '
+    'neumann_refusal_iff, funcIsNull_iff, accepted_has_no_pure_neumann_mode, function_rhs_agrees_when_rhoFactor_one (+ negative witness of the defect repaired by the fix: commit for function right-hand sides). '
+    '"Exact for manufactured polynomial solutions" is not proved in Lean (integration by parts over piecewise polynomials): decided by the exact-Q model and an independent dense scipy/leggauss oracle = test. '
+    'leggauss, spsolve/splu, banded LU are contracts; residuals measured exactly every run.', NOTE_COMMON + ' Radial breakpoints are assumed uniform (pygyro builds them with linspace).', 'DESIGN.md 4/C14')
+CLAIMS['C15'] = ('other', 'partial proof in Lean 4 (DFT round trip via Mathlib ZMod.dft, mode numbers, chi selection, per-mode operator formula, zero pipeline for the equilibrium, reality in abstract form) + correspondence of the full pipeline on simulated ranks with an independent dense per-mode solve',
+    '13 theorems: dft_roundtrip, dft_formulas, mvals_alias, mval_zero_iff, mval_injective, m2_symmetric, chi_selects_stiffness, mode_operator_formula, pipeline_zero_for_equilibrium, star_dft_of_real, '
+    'star_invDFT_of_herm, potential_real_for_real_density (abstract operators with L(-k)=L(k); not instantiated with the concrete matrices). Not proved: "equilibrium is a fixed point of the complete time step" '
+    '(composition with C10-C12) — measured by the driver oracle of C05/C18. FFTPACK = DFT is a contract checked against a dense DFT every run.', NOTE_COMMON, 'DESIGN.md 4/C15')
+CLAIMS['C16'] = ('proof', 'Lean 4 theorems on a transcription of get_rho/get_perturbed_rho as DensityFinder calls them + exact-rational correspondence on all process grids',
+    'density_is_quadrature (equilibrium row taken at the GLOBAL radial index; a negative example shows the local-index variant differs), density_decomposition_independent, density_linear, density_perturbed_affine, '
+    'density_zero_for_equilibrium, density_exact_in_spline_space (from the quadrature duality). Oracle: exact Fraction integral of the exact v-interpolant minus f_eq at the slice\'s own global radius; identical assembled result for every decomposition.',
+    NOTE_COMMON, 'DESIGN.md 4/C16')
 PENDING = {
 }
 ALL = ['C%02d' % i for i in range(1, 21)]
